@@ -571,3 +571,63 @@ fn c06_h2_std_io_legacy_reads() {
     std_io_case(6, 9);
 }
 
+
+/* ------ concrete-text twins: stay decidable on variants that run heavier string code ------ */
+
+fn parse_int_case(text: &'static str, want: Option<i64>) {
+    let (when_none, none_body) = marker('N');
+    let (when_some, some_body) = marker('S');
+    let mut world = World::new();
+    let out = ManuallyDrop::new(world.invoke(
+        BuiltinValueRole::StrParseInt,
+        vec![ZValue::Literal(Literal::String(Utf8String::from(text))), when_none, when_some],
+    ));
+    match (&*out, want) {
+        | (Ok(c), None) => assert!(forces(c, &none_body), "unparsable number takes the none branch"),
+        | (Ok(c), Some(v)) => assert!(matches!(applied1(c, &some_body), Some(x) if is_int64(x, v)), "parsed integer is passed to the some branch"),
+        | (Err(_), _) => assert!(false, "must not exit"),
+    }
+    std::mem::forget(world);
+    std::mem::forget((none_body, some_body));
+}
+
+fn str_get_case(text: &'static str, index: i64, want: Option<char>) {
+    let (when_none, none_body) = marker('N');
+    let (when_some, some_body) = marker('S');
+    let mut world = World::new();
+    let out = ManuallyDrop::new(world.invoke(
+        BuiltinValueRole::StrGet,
+        vec![ZValue::Literal(Literal::String(Utf8String::from(text))), int64(index), when_none, when_some],
+    ));
+    match (&*out, want) {
+        | (Ok(c), None) => assert!(forces(c, &none_body), "out-of-range position takes the none branch"),
+        | (Ok(c), Some(ch)) => assert!(matches!(applied1(c, &some_body), Some(ZValue::Literal(Literal::Char(x))) if *x == ch), "str_get yields the index-th scalar value"),
+        | (Err(_), _) => assert!(false, "must not exit"),
+    }
+    std::mem::forget(world);
+    std::mem::forget((none_body, some_body));
+}
+
+//@ id: c06_h2_text_concrete_cases
+//@ property: C06
+//@ tier: quick
+//@ encodes: BuiltinRuntime::invoke (dispatch), impls::{str_parse_int_branch, str_get_branch} on concrete texts
+//@ sym: which of 4 concrete calls (constant call sites chosen by the solver): a number with a leading blank, with a trailing newline; str_get at position -1 and one past the end of a mixed multi-byte text (16 call sites did not finish in 20 min)
+//@ oracle: all four take the `none` branch: white space is never trimmed, a negative or too large position is out of range
+//@ bounds: concrete arguments only (a twin of c06_h2_str_parse_int_b2 / c06_h2_str_get that still finishes on variants of the code that run trimming or counting code on the text); unwind 24
+//@ stubs: as c05_h3_arith_int8
+//@ replay: playback
+#[kani::proof]
+#[kani::unwind(24)]
+#[kani::stub(std::hash::RandomState::new, fixed_random_state)]
+#[kani::stub(random_int, no_random_int)]
+#[kani::stub(<SemValue as std::clone::Clone>::clone, clone_thunk_only)]
+fn c06_h2_text_concrete_cases() {
+    let which: u8 = kani::any();
+    match which {
+        | 0 => parse_int_case(" 4", None),
+        | 1 => parse_int_case("4\n", None),
+        | 2 => str_get_case("\u{e9}a", -1, None),
+        | _ => str_get_case("\u{e9}a", 2, None),
+    }
+}
